@@ -37,6 +37,26 @@ harnesses! {
         cover!(o.ok, "call returned");
         forget(r);
     }
+    #[kani::unwind(34)]
+    fn c03_ffi_big_jump_kf(nd) {
+        let mut r = FastFixedIn::<f64>::new(1.0, 8.0, PolynomialDegree::Nearest, 2, 1).unwrap();
+        let mut pos = 0usize;
+        let mut xin = [0.0f64; 4];
+        let mut out = [0.0f64; 30];
+        check!(r.set_resample_ratio(0.125, false).is_ok(), "C03.warmup_setter_ok[recip_span_ge3]");
+        let mut k = 0;
+        while k < 6 {
+            let o = call1(nd, &mut r, &mut pos, 0, 0, &mut xin, &mut out);
+            obs_checks!(o, false, "recip_span_ge3");
+            k += 1;
+        }
+        // concrete witness of F5: stepped jump from 1/8 to 2
+        check!(r.set_resample_ratio(2.0, false).is_ok(), "C03.warmup_setter_ok[recip_span_ge3]");
+        let o = call1(nd, &mut r, &mut pos, 0, 0, &mut xin, &mut out);
+        obs_checks!(o, false, "recip_span_ge3");
+        cover!(o.ok, "call returned");
+        forget(r);
+    }
 
     // ---- constructor vs reset: the input need after reset() must equal the fresh one for
     // every constructor ratio (symbolic constructor: allowed here, no processing call)
